@@ -408,6 +408,7 @@ func coqView(cs datatransfer.ChannelState, res *suiteResult) (out string) {
 			res.fail(monitorFailure{Property: "C17", Signature: "view:self-paused", What: "an announced snapshot is not a consistent view of the state resulting from the event: SelfPaused is not the flag of the local role"})
 		}
 		if cs.Status() == datatransfer.Finalizing && !cs.ResponderPaused() {
+			res.fail(monitorFailure{Property: "C03", Signature: "view:finalizing-not-paused", What: "a responder awaiting finalization does not report itself paused"})
 			res.fail(monitorFailure{Property: "C11", Signature: "view:finalizing-not-paused", What: "a responder awaiting finalization does not count as paused"})
 			res.fail(monitorFailure{Property: "C19", Signature: "view:finalizing-not-paused", What: "the views of one channel state contradict each other: a responder awaiting finalization does not count as paused"})
 			res.fail(monitorFailure{Property: "C17", Signature: "view:finalizing-not-paused", What: "an announced snapshot is not a consistent view of the state resulting from the event: a responder awaiting finalization does not count as paused"})
@@ -906,8 +907,10 @@ func (r *fsmRig) monitorCase(id int, label string, seed *channels.VerifChannelSt
 		after := out.notifs[0].St.Status()
 		expect := func(want datatransfer.Status, sig, what string) {
 			if after != want {
-				r.res.fail(monitorFailure{Property: "C03", CaseID: id, Signature: sig + ":" + eventName(e.Code) + "@" + statusName(seed.Status),
-					What: what, Input: label, Observed: statusName(after), Expected: statusName(want)})
+				for _, prop := range []string{"C03", "C01"} {
+					r.res.fail(monitorFailure{Property: prop, CaseID: id, Signature: sig + ":" + eventName(e.Code) + "@" + statusName(seed.Status),
+						What: what, Input: label, Observed: statusName(after), Expected: statusName(want)})
+				}
 			}
 		}
 		switch {
@@ -917,6 +920,10 @@ func (r *fsmRig) monitorCase(id int, label string, seed *channels.VerifChannelSt
 			expect(datatransfer.Completing, "both-signals-do-not-complete", "the own transport finished, the responder's Complete arrives: the channel must complete")
 		case e.Code == datatransfer.ResponderCompletes && seed.Status == datatransfer.ResponderFinalizingTransferFinished:
 			expect(datatransfer.Completing, "final-complete-does-not-complete", "after a paused Complete and the own transport's finish, the final Complete must complete the channel")
+		case e.Code == datatransfer.ResponderCompletes && seed.Status == datatransfer.ResponderFinalizing:
+			expect(datatransfer.ResponderCompleted, "final-complete-alone-completes", "the final Complete after a paused one, with the own transport still running, must wait for the transport's finish")
+		case e.Code == datatransfer.ResponderBeginsFinalization && (seed.Status == datatransfer.Ongoing || seed.Status == datatransfer.Queued):
+			expect(datatransfer.ResponderFinalizing, "paused-complete-completes", "a paused (finalizing) Complete alone must not complete the channel")
 		case e.Code == datatransfer.FinishTransfer && seed.Status == datatransfer.ResponderFinalizing:
 			expect(datatransfer.ResponderFinalizingTransferFinished, "paused-complete-completes", "a paused (finalizing) Complete plus the own transport's finish must wait for the final Complete")
 		case e.Code == datatransfer.ResponderBeginsFinalization && seed.Status == datatransfer.TransferFinished:
